@@ -571,13 +571,9 @@ cpdef Dense matmul_dag_dense_csr_dense(
         )
         warnings.warn(msg, OrderEfficiencyWarning)
         # Rather than making loads of copies of the same code, we just moan at
-        # the user and then transpose one of the arrays.  We prefer to have
-        # `right` in Fortran-order for cache efficiency.
-        if left.fortran:
-            tmp = out
-            out = out.reorder()
-        else:
-            left = left.reorder()
+        # the user and then reorder the input: the result is accumulated
+        # directly in `out`, in its own memory order.
+        left = left.reorder()
     cdef idxint row, col, ptr, idx_l, idx_out, out_row, idx_c
     cdef idxint stride_in_col, stride_in_row, stride_out_row, stride_out_col
     cdef idxint nrows=left.shape[0], ncols=right.shape[1]
